@@ -4,11 +4,11 @@
    indices, the caller's vector is prior ++ appended (the Rust code only ever pushes / resizes past the
    old length; the harness calls the indices variants with a non-empty prior vector and checks it).
    The DP's reconstruct_optimal_path is covered by C02_dp_witness (Proofs/DPCore.v: every score cell is
-   UNMATCHED or carries a valid partial embedding that reconstruct returns), proved for
-   prefer_prefix = false; PARTIAL only in that the prefer_prefix = true DP runs are validated by the
-   correspondence + embedding oracle, not proved. *)
+   UNMATCHED or carries a valid partial embedding that reconstruct returns; Proofs/DPInv.v, DPWalk.v:
+   the back-pointer walk terminates at strictly increasing matching columns), for every configuration.
+   Together with C02_linear_witness all six algorithms are covered. *)
 From Coq Require Import Arith NArith List Bool.
-From NV Require Import Model.Matcher Spec.Matching Spec.Statements Proofs.WitnessFacts Proofs.DPScoreFacts.
+From NV Require Import Model.Matcher Spec.Matching Spec.Statements Proofs.WitnessFacts Proofs.DPScoreFacts Proofs.DPFacts.
 Import ListNotations.
 Local Open Scope N_scope.
 
@@ -29,11 +29,9 @@ Proof. intros prior o H. destruct o; try reflexivity. exfalso. exact (H _ _ eq_r
 Theorem C02_prior_prefix : forall prior s idx, firstn (length prior) (indices_after prior (Match s idx)) = prior.
 Proof. intros. cbn [indices_after]. rewrite firstn_app, Nat.sub_diag, firstn_all. cbn. apply app_nil_r. Qed.
 
-(* the DP (reconstruct_optimal_path) reports a valid embedding - proved with prefix preference off;
-   with prefer_prefix on the DP invariant carries an extra per-column bonus and the clause is validated
-   by the correspondence + embedding oracle only *)
-Theorem C02_dp_witness : DPScoreFacts.DP_witness_weak_stmt.
-Proof. exact DPScoreFacts.DP_witness_weak. Qed.
+(* the DP (reconstruct_optimal_path) reports a valid embedding, for every configuration *)
+Theorem C02_dp_witness : DP_witness_stmt.
+Proof. exact DPFacts.DP_witness. Qed.
 
 Example C02_nonvacuous :
   let cfg := config_of preset_default true true false in
